@@ -378,6 +378,13 @@ func cmdShrink(args []string) {
 		cmd := exec.Command(self, "replay", "-file", tmp.Name(), "-tier", *tier, "-emit")
 		cmd.Env = os.Environ()
 		outb, _ := cmd.Output()
+		if cmd.Process != nil {
+			for _, kv := range strings.Fields(os.Getenv("GORACE")) {
+				if strings.HasPrefix(kv, "log_path=") {
+					os.Remove(strings.TrimPrefix(kv, "log_path=") + "." + fmt.Sprint(cmd.Process.Pid))
+				}
+			}
+		}
 		var got sim.Record
 		line := outb
 		if i := strings.IndexByte(string(outb), '\n'); i >= 0 {
